@@ -39,7 +39,7 @@ def collect(outdir):
 
 class Exec(Family):
     name = "Exec"
-    props = ["C07", "C08", "C14"]
+    props = ["C07", "C08", "C14", "C10"]
     adapter = "execadp"
     trace_module = "ExecTrace.tla"
     trace_cfg = "ExecTrace.cfg"
@@ -56,6 +56,7 @@ class Exec(Family):
     def rule(self, prop):
         return {"C07": "seeded random block plans over all transaction kinds (transfers with extreme amounts, every reflected contract method with exact/short/long/wrong-typed/malformed arguments, Stub method names, raw payload mutations, XVM, bad signatures, poor senders around each fee level), 1-5 txs per block, view executions, restarts; non-trivial = block with a FAILED receipt whose state delta against the sibling node was attributable; distinct by (contract, method, class, position)",
                 "C08": "same plans; non-trivial = executed block containing a transaction that is not a well-formed transfer; distinct by (kind, class, contract, method)",
+                "C10": "root pairs: two identical real nodes execute the same 2-5 transfers in the same / a permuted order, finally with one perturbed transaction; tx root, receipt root and state root of both blocks are compared; non-trivial = a permuted or perturbed pair; distinct by (mode, size)",
                 "C14": "same plans plus value-focused plans; non-trivial = block with a transfer or fee payment whose balances were checked; distinct by (amount kind, self/admin/contract receiver, status, ret class)"}[prop]
 
     def nontrivial(self, events, prop):
@@ -68,6 +69,8 @@ class Exec(Family):
                 return True
             if prop == "C14" and any(t["k"] == "transfer" for t in e["txs"]):
                 return True
+        if prop == "C10":
+            return any(e["ev"] == "RootPair" and e["mode"] != "same" for e in events)
         return False
 
     def gen_and_run(self, ctx, prop, tier):
@@ -76,7 +79,10 @@ class Exec(Family):
         env = dict(os.environ, TMPDIR=ctx.dir)
         traces = []
         self.restarts = 0
-        for i, (focus, cnt) in enumerate((("", n), ("value", n // 3 if prop != "C14" else n))):
+        runs = (("", n), ("value", n // 3 if prop != "C14" else n))
+        if prop == "C10":
+            runs = (("roots", 40 if q else 1500),)
+        for i, (focus, cnt) in enumerate(runs):
             od = os.path.join(ctx.dir, "t-%d" % i)
             args = ["-n", str(cnt), "-seed", str(ctx.seed * 7 + i)] + (["-focus", focus] if focus else [])
             self.restarts += run_adapter_resilient(ctx.bin, args, od, env, "execadp")
